@@ -31,7 +31,7 @@ PROP = dict(
                   "model being the insertion sort std uses for <= 20 elements"],
     assumptions=["text is modelled as a list of code points; sources are bytes only at the entrance (readRawLines / compileRaw: "
                  "strict UTF-8 decoding per line), where a line that is not valid UTF-8 ends the run (F45)",
-                 "known findings: F27 (no-syllables, length-mismatch, empty-phrase, word-freq-unchecked: malformed lines the "
+                 "known findings: F27 (no-syllables, length-mismatch, empty-phrase, phrase-whitespace, word-freq-unchecked: malformed lines the "
                  "parser accepts), F45 invalid-utf8 (a line that is not valid UTF-8 aborts the run unnumbered, --skip-invalid or "
                  "not), F18-tone1 (a first-tone mark does not survive the dump), F34-sqlite-order (SQLite candidate "
                  "order of one-syllable keys changes when the dump is compiled again) — each refuted with a witness and "
@@ -53,8 +53,8 @@ MANIFEST = dict(
          "SQLite file answers); malformed_reported / reported_iff (exactly the rejected lines are reported, with their 1-based "
          "numbers; nothing is built unless --skip-invalid) / skip_invalid_keeps_valid; accepted_iff + rejected_cause (exactly "
          "which lines parse_line accepts). REFUTED on the unchanged code, with witness + partial theorem each: MalformedFull "
-         "(F27: lines without syllables, with a syllable/character count mismatch, an empty phrase, or an unchecked "
-         "one-character frequency are accepted), SkipInvalidFull (F45: a line that is not valid UTF-8 stops the run with an "
+         "(F27: lines without syllables, with a syllable/character count mismatch, an empty phrase, white space at the ends "
+         "of the phrase field, or an unchecked one-character frequency are accepted), SkipInvalidFull (F45: a line that is not valid UTF-8 stops the run with an "
          "I/O error, no line number, --skip-invalid or not; raw_run_is_text_run outside that class), RoundTripFull (F18: a "
          "first-tone mark is not dumped), RecompiledLookupFull (F34). CORRESPONDENCE: the REAL chewing-cli binary built from the tree is run on fixed, repository and generated "
          "sources and on ~30 single-line corruptions per line; exit status, reported line numbers, output existence, complete "
